@@ -182,7 +182,8 @@ def report_violation(prop, rec, v, tier):
         return None, False, "violation did not reproduce from its seed"
     from .shrink import shrink
 
-    scn, choices, res2 = shrink(prop, seed, res["scn"], res["choices"], v, budget=250, wall=60.0)
+    # (VERIF_SHRINK_WALL: maintenance knob of tools_seeded.sh; the registered commands do not set it)
+    scn, choices, res2 = shrink(prop, seed, res["scn"], res["choices"], v, budget=250, wall=float(os.environ.get("VERIF_SHRINK_WALL", "60")))
     w = same_violation(res2, v)
     os.makedirs(os.path.join(VERIF, "replays"), exist_ok=True)
     path = os.path.join(VERIF, "replays", "%s-%d.json" % (prop, seed))
